@@ -73,7 +73,7 @@ def c14(tier, seed, replay_path=None):
         e = dict(env)
         e.update({"VERIF_OP": "wire", "VERIF_IN": tbl, "VERIF_OUT": os.path.join(sd, "res"), "VERIF_SEED": str(seed), "VERIF_INSTANCES": str(inst),
                   "VERIF_SHARD": str(i), "VERIF_NSHARD": str(nsh), "VERIF_RAW": str(1500 if tier == "quick" else 40000)})
-        procs.append((sd, subprocess.Popen([binary, "-test.run", "^TestHarness$", "-test.timeout", "0"], env=e, cwd=sd, stdout=subprocess.PIPE, stderr=subprocess.PIPE, text=True)))
+        procs.append((sd, c.FileProc([binary, "-test.run", "^TestHarness$", "-test.timeout", "0"], e, sd)))
     aggs = []
     for sd, pr in procs:
         so, se = pr.communicate(timeout=3400)
@@ -274,7 +274,7 @@ def c18(tier, seed, replay_path=None):
         sd = c.sub("connmgr%02d" % i)
         e = dict(env)
         e.update({"VERIF_OP": "connmgr", "VERIF_OUT": os.path.join(sd, "connmgr_trace.ndjson"), "VERIF_SEED": str(seed * 100 + i), "VERIF_SCENARIOS": str(nsc)})
-        procs.append((sd, subprocess.Popen([chainbin, "-test.run", "^TestHarness$", "-test.timeout", "0"], env=e, cwd=sd, stdout=subprocess.PIPE, stderr=subprocess.PIPE, text=True)))
+        procs.append((sd, c.FileProc([chainbin, "-test.run", "^TestHarness$", "-test.timeout", "0"], e, sd)))
     tcfg = os.path.join(d2, "connmgr_trace.cfg")
     c.write_cfg(tcfg, "TraceSpec", {}, ["OpenAtMostTarget"], (), extra=["POSTCONDITION TraceAccepted"])
     for sd, pr in procs:
